@@ -249,29 +249,38 @@ theorem nodup_keys_padLang (P : List (Str × List (Str × Unit))) (ps : Paths) (
   exact nodup_keys_foldl_upd
     (fun pc o => pc.2.foldl (fun fs c => upd c.1 (fun o3 => o3.getD true) fs) (o.getD [])) P ps h
 
-theorem keys_pad (T : Table) : keys (pad T) = keys T := by
+theorem keys_choicePaths (lists : List CList) : keys (choicePaths lists) = lists.flatMap listIds := by
+  simp [choicePaths, keys, List.map_map, Function.comp_def]
+
+theorem mem_keys_allPathsC (lists : List CList) (T : Table) (p : Str) :
+    p ∈ keys (allPathsC lists T) ↔ (∃ lps ∈ T, p ∈ keys lps.2) ∨ p ∈ lists.flatMap listIds := by
+  unfold allPathsC
+  rw [mem_keys_foldl_upd (fun pc o => o.getD pc.2), mem_keys_allPaths, keys_choicePaths]
+
+theorem keys_pad (lists : List CList) (T : Table) : keys (pad lists T) = keys T := by
   simp [pad, keys, List.map_map, Function.comp_def]
 
-theorem mem_pad {T : Table} {lps' : Str × Paths} :
-    lps' ∈ pad T ↔ ∃ lps ∈ T, lps' = (lps.1, padLang (allPaths T) lps.2) := by
+theorem mem_pad {lists : List CList} {T : Table} {lps' : Str × Paths} :
+    lps' ∈ pad lists T ↔ ∃ lps ∈ T, lps' = (lps.1, padLang (allPathsC lists T) lps.2) := by
   unfold pad
   simp only [List.mem_map]
   constructor
   · rintro ⟨a, ha, h⟩; exact ⟨a, ha, h.symm⟩
   · rintro ⟨a, ha, h⟩; exact ⟨a, ha, h.symm⟩
 
-/-- after padding, every language holds exactly the union of all paths -/
-theorem mem_keys_pad {T : Table} {lps' : Str × Paths} (h : lps' ∈ pad T) (p : Str) :
-    p ∈ keys lps'.2 ↔ ∃ lps ∈ T, p ∈ keys lps.2 := by
+/-- after padding, every language holds exactly the union of all paths and all choice ids of the
+itext-requiring lists -/
+theorem mem_keys_pad {lists : List CList} {T : Table} {lps' : Str × Paths} (h : lps' ∈ pad lists T) (p : Str) :
+    p ∈ keys lps'.2 ↔ (∃ lps ∈ T, p ∈ keys lps.2) ∨ p ∈ lists.flatMap listIds := by
   obtain ⟨lps, hl, rfl⟩ := mem_pad.mp h
-  simp only [mem_keys_padLang, mem_keys_allPaths]
+  simp only [mem_keys_padLang, mem_keys_allPathsC]
   constructor
   · rintro (h1 | h1)
-    · exact ⟨lps, hl, h1⟩
+    · exact Or.inl ⟨lps, hl, h1⟩
     · exact h1
   · intro h1; exact Or.inr h1
 
-theorem tableOk_pad {T : Table} (h : TableOk T) : TableOk (pad T) := by
+theorem tableOk_pad {lists : List CList} {T : Table} (h : TableOk T) : TableOk (pad lists T) := by
   refine ⟨by rw [keys_pad]; exact h.1, ?_⟩
   intro lps' hl
   obtain ⟨lps, hl2, rfl⟩ := mem_pad.mp hl
@@ -507,5 +516,52 @@ theorem listIds_entry (dl : Str) {lists : List CList} {l : CList} (hm : l ∈ li
     unfold choiceEntries
     exact List.mem_flatMap.mpr ⟨l, hm, by simp only [hr, if_true]; exact he⟩
   next => cases hi
+
+theorem optRequires_entry (dl id : Str) {o : Opt} (hr : optRequiresItext o = true) (hw : optWf o = true) :
+    ∃ e, e ∈ optEntries dl id o := by
+  have hl : optLabeled o = true := by
+    simp only [optRequiresItext, Bool.or_eq_true] at hr
+    simp only [optLabeled, Bool.or_eq_true]
+    rcases hr with (h | h) | h
+    · exact Or.inr h
+    · left
+      simp only [optWf, Bool.and_eq_true] at hw
+      cases hlab : o.label with
+      | dict l =>
+        cases l with
+        | nil => rw [hlab] at hw; simp [Txt.wf] at hw
+        | cons kv rest => simp [Txt.truthy]
+      | none => rw [hlab] at h; simp [Txt.isDict] at h
+      | str t => rw [hlab] at h; simp [Txt.isDict] at h
+    · left
+      cases hlab : o.label with
+      | str t =>
+        rw [hlab] at h
+        simp only [Bool.and_eq_true] at h
+        simpa [Txt.truthy] using h.1
+      | none => rw [hlab] at h; cases h
+      | dict l => rw [hlab] at h; cases h
+  obtain ⟨e, he, _⟩ := optEntries_nonempty dl id hl hw
+  exact ⟨e, he⟩
+
+theorem optsRequires_entry (dl name : Str) (os : List Opt) (k : Nat)
+    (hw : ∀ o ∈ os, optWf o = true) (hr : os.any optRequiresItext = true) :
+    ∃ e, e ∈ optsEntries dl name k os := by
+  induction os generalizing k with
+  | nil => simp at hr
+  | cons o rest ih =>
+    simp only [List.any_cons, Bool.or_eq_true] at hr
+    rcases hr with h | h
+    · obtain ⟨e, he⟩ := optRequires_entry dl (choiceId name k) h (hw o List.mem_cons_self)
+      exact ⟨e, by simp only [optsEntries, List.mem_append]; exact Or.inl he⟩
+    · obtain ⟨e, he⟩ := ih (k + 1) (fun o' ho' => hw o' (List.mem_cons_of_mem _ ho')) h
+      exact ⟨e, by simp only [optsEntries, List.mem_append]; exact Or.inr he⟩
+
+/-- a list that requires itext contributes at least one leaf assignment (so a language exists) -/
+theorem requires_entry (dl : Str) {lists : List CList} {l : CList} (hm : l ∈ lists)
+    (hw : ∀ o ∈ l.options, optWf o = true) (hr : requiresItext l = true) :
+    ∃ e, e ∈ choiceEntries dl lists := by
+  obtain ⟨e, he⟩ := optsRequires_entry dl l.name l.options 0 hw hr
+  exact ⟨e, List.mem_flatMap.mpr ⟨l, hm, by simp only [hr, if_true]; exact he⟩⟩
 
 end Pyxv.Itext
